@@ -56,6 +56,7 @@ SRC_ITEM = NM("src", "Item", ("st", "V:string,Sub:*Sub,Subs:[]*Sub"))
 DEST_ITEM = NM("dest", "Item", ("st", "V:string,Sub:*Sub,Subs:[]Sub"))
 DEST_DEC = NM("dest", "Dec", ("st", "V:int"))
 MAP_SI, MAP_SS = O("map[string]int"), O("map[string]string")
+ARR4, ARR2I, ARR1 = O("[4]uint8"), O("[2]int"), O("[1]uint8")          # arrays: opaque to the model but for identity
 
 SRC_TYPES_GO = """package src
 
@@ -120,6 +121,10 @@ def convertible(a, b):
     else the rules below (the palette of the first version)"""
     if a == b:
         return True
+    if is_slice_to_array(a, b):
+        # matchType's mayPanicConv: go/types calls the pair convertible, but the conversion is checked at run time (it panics when
+        # the slice is shorter than the array) - the mapper treats it as NOT convertible, like string<->fixed-width integer
+        return False
     if _GOTYPES["bin"]:
         if (a, b) not in _GOTYPES["rel"]:
             _gotypes_fill([a, b])
@@ -136,6 +141,14 @@ def convertible(a, b):
         if na in INTS and nb == "string":
             return True
     return False
+
+
+def is_array(t):
+    return t[0] == "o" and re.match(r"^\[\d+\]", t[1]) is not None
+
+
+def is_slice_to_array(a, b):
+    return a[0] == "s" and (is_array(b) or (b[0] == "p" and is_array(b[1])))
 
 
 def go_type(t, inpkg):
@@ -591,13 +604,15 @@ DEST_EMBEDS = ["Base", "MetaD", "Core", "Stamp"]
 DEST_INNER = ["Inner", "DeepD", "Leaf"]
 
 SAME = [INT, STR, I64, F64, U8, I32, UINT, P(INT), P(STR), SL(INT), SL(STR), MAP_SI, MAP_SS, DEST_DEC, DEST_KIND,
-        SL(DEST_DEC), P(DEST_DEC), I8, U16, F32, DEST_TEXT, ERR, ANY, BOOL, SL(ERR), P(BOOL)]
+        SL(DEST_DEC), P(DEST_DEC), I8, U16, F32, DEST_TEXT, ERR, ANY, BOOL, SL(ERR), P(BOOL), ARR4, P(ARR2I)]
 CONV = [(INT, I64), (I32, INT), (U8, INT), (F64, INT), (INT, F32), (SRC_LABEL, STR), (STR, DEST_TEXT), (INT, DEST_KIND),
         (SRC_KIND, INT), (I64, DEST_CODE), (U32, U64), (I16, I8), (SRC_KIND, I64), (F32, F64), (UINT, INT), (I8, DEST_KIND)]
 ONEWAY = [(INT, STR), (UINT, STR), (INT, DEST_TEXT), (SRC_KIND, STR), (ERR, ANY), (INT, ANY), (DEST_DEC, ANY)]   # converts one way only
 MISCONV = [(I32, STR), (STR, I64), (U8, STR), (STR, DEST_CODE), (SRC_LABEL, I32), (U64, DEST_TEXT), (I16, STR)]
 NONE = [(BOOL, INT), (ERR, STR), (ANY, INT), (STR, SL(INT)), (INT, MAP_SI), (SL(INT), SL(I64)), (SRC_SUB, INT), (SL(SRC_SUB), DEST_SUB), (P(INT), INT),
-        (STR, INT), (MAP_SI, MAP_SS), (P(INT), P(I64)), (SL(STR), STR), (F64, STR)]
+        (STR, INT), (MAP_SI, MAP_SS), (P(INT), P(I64)), (SL(STR), STR), (F64, STR),
+        # slice -> array / pointer to array: convertible for go/types, checked at run time - not mapped
+        (SL(U8), ARR4), (SL(INT), P(ARR2I)), (SL(U8), ARR1), (ARR4, ARR1)]
 FUNCABLE = [(INT, STR), (STR, DEST_DEC), (INT, I64), (INT, INT), (STR, INT), (F64, STR), (STR, STR), (I32, STR),
             (SRC_KIND, DEST_DEC), (SRC_SUB, DEST_SUB), (I64, DEST_TEXT), (SL(INT), STR)]
 FUNCONLY = [(STR, DEST_DEC), (STR, INT), (F64, STR), (I32, STR), (SL(INT), STR), (STR, F64)]   # no conversion exists
@@ -852,6 +867,8 @@ class MapGen:
                     spec["manual"]["rfields"] = r.sample(sn, r.randint(1, min(2, len(sn))))
         if r.random() < o.get("embed_tag", 0.06):
             add_embed_tag(r, spec, o.get("embed_tag_side"), o.get("embed_tag_kind"), o.get("embed_tag_namesake", 0.6))
+        if r.random() < o.get("field_like_embed", 0.04):
+            add_field_like_embed(r, spec, o.get("field_like_embed_side"))
         if r.random() < o.get("diamond", 0.04):
             add_diamond(r, spec, o.get("diamond_side"))
         if r.random() < o.get("selfembed", 0.03):
@@ -955,6 +972,35 @@ def add_embed_tag(rng, spec, side=None, kind=None, namesake=0.6):
         tgt = rng.choice(deeper)
         if all(y["name"] != f["name"] for y in tgt["members"] if y["k"] == "f"):
             tgt["members"].append(F(f["name"], f["type"]))
+    return spec
+
+
+def add_field_like_embed(rng, spec, side=None):
+    """a promoted FIELD that is called like an embedded POINTER type lying deeper elsewhere in the struct (`Doc{ *Wrap; Info }`,
+    Wrap{ Mid }, Mid{ *Aud }, Info{ Aud string }): `d.Aud` is the field (Go: shallowest wins), and the embedded pointer of that
+    name does not lie on its path - it must neither be allocated for it nor guard its read (repaired by 5a8522e: Field.CoveredBy
+    used to answer yes when the field's path merely ended in the last segment of the pointer path). The field is mapped (partner
+    on the other side); the field below the pointer is mapped half of the time (then the whole chain is needed)"""
+    sides = [side] if side in ("src", "dest") else [rng.choice(["src", "dest"])]
+    for sd in sides:
+        st, other = spec[sd], spec["dest" if sd == "src" else "src"]
+        sfx = "" if sd == "src" else "D"
+        names = ["Wrap" + sfx, "Mid" + sfx, "Aud" + sfx, "Info" + sfx]
+        used = {d_["name"] for d_ in embed_decls(st)} | {m["name"] for _, m in leaves(st)} | {m["name"] for _, m in leaves(other)} | \
+               {d_["name"] for d_ in embed_decls(other)}
+        if used & set(names) or ("By" + sfx) in used:
+            continue
+        t = rng.choice([INT, STR])
+        aud = ST(names[2], [F("By" + sfx, INT)])
+        mid = ST(names[1], [E(aud, True)])
+        wrap = E(ST(names[0], [E(mid, rng.random() < 0.5)]), rng.random() < 0.7)
+        info = E(ST(names[3], [F(names[2], t)]), rng.random() < 0.3)
+        for e in rng.sample([wrap, info], 2):
+            st["members"].append(e)
+        other["members"].append(F(names[2], t))
+        if rng.random() < 0.5:
+            other["members"].append(F("By" + sfx, INT))
+        spec["field_like_embed"] = True
     return spec
 
 
@@ -1236,7 +1282,11 @@ def c01_case(ctx, g, cid, mode, opts, new_sides=()):
     o = dict(opts)
     if mode in ("file", "star"):
         o["embeds"] = 0.0          # every exported struct of the file / package is mapped: keep to the top-level pair
-    sp = g.pair(**o)
+    if "spec" in o:
+        import copy
+        sp = copy.deepcopy(o["spec"])          # a fixed shape instead of a generated pair
+    else:
+        sp = g.pair(**o)
     if mode in ("file", "star"):   # -to needs -type
         sp["dname"] = sp["sname"]
         sp["dest"] = dict(sp["dest"], name=sp["sname"])
@@ -1327,6 +1377,16 @@ def c01_leg(ctx, res, n):
               dict(embeds=1.0, selfembed=1.0, selfembed_side="dest", selfembed_variant="mutual")]
     for k, o in enumerate(shaped):
         plan.append((C01_MODES[k % 4] if "embeds" not in o else "type", dict(base, **o), ()))
+    # 2b. accessor-mode side x nested mapped struct held by VALUE / by POINTER / in a slice, against value and pointer on the other
+    #     side (seeded change C01-12: a getter result is not addressable - `*o.Main().ToDto()` does not compile for a value)
+    for new_side in ("src", "dest"):
+        for ap in (False, True):
+            for bp in (False, True):
+                a, b = (P(SRC_SUB) if ap else SRC_SUB), (P(DEST_SUB) if bp else DEST_SUB)
+                ms = [F("main", a if new_side == "src" else b), F("items", SL(a if new_side == "src" else b)), F("id", INT)]
+                pl = [F("Main", b if new_side == "src" else a), F("Items", SL(b if new_side == "src" else a)), F("ID", INT)]
+                sp = mk_spec(ms, pl, src_kind="new", sname="Order") if new_side == "src" else mk_spec(pl, ms, dest_kind="new", sname="Order")
+                plan.append(("type", dict(base, spec=sp), ()))
     # 3. accessor-mode sides (constructor + getters/setters), single-type runs
     for sides in (("dest",), ("src",), ("src", "dest")):
         for k in range(2):
@@ -1335,7 +1395,7 @@ def c01_leg(ctx, res, n):
     #    accessor lists must not carry over to the second type
     for sides in (("dest",), ("src",), ("src", "dest")):
         plan.append(("list", dict(base, embeds=0.0, shadow=0.0, unexported=0.0, names=["ident"] * 4 + ["acronym"]), sides))
-    plan = plan[:n]
+    n = max(n, len(plan))          # the fixed part is never cut
     while len(plan) < n:
         r = rng.random()
         if r < 0.1:
@@ -1442,6 +1502,8 @@ def count_features(spec, feats=None):
                         x["k"] == "e" and any(y["k"] == "e" and y["decl"]["name"] == m["decl"]["name"] for y in x["decl"]["members"])
                         for x in st["members"] if x is not m):
                     inc("%s-embedded-twice" % side)
+                if m["k"] == "e" and spec.get("field_like_embed") and m["decl"]["name"].startswith("Info"):
+                    inc("%s-field-named-like-deeper-embed" % side)
                 if m["k"] == "e" and m.get("tag") is not None:
                     inc("%s-embed-tagged-%s-%s" % (side, "skip" if m["tag"] == "-" else "name", "ptr" if m["ptr"] else "val"))
                 if m["k"] == "e" and m["decl"].get("back"):
